@@ -114,8 +114,8 @@ def res_limit_case(ns, nc):
         Claim("published_regen_out_max=charge_max+aux", lambda c: EQ(c.post["state.pwr_regen_out_max"], c.post["state.pwr_charge_max"] + c.S["aux"]), when="ret"),
         Claim("accepted_discharge_within_rating(+TOL)", lambda c: LT(c.post["state.pwr_out_electrical"], almost_le_bound(c.pre["pwr_out_max"]))),
         Claim("accepted_discharge_within_published_limit(+TOL)", lambda c: LT(c.post["state.pwr_out_electrical"], almost_le_bound(c.post["state.pwr_disch_max"]))),
-        Claim("accepted_charge_within_rating(+TOL)", lambda c: IMP(LT(c.post["state.pwr_out_electrical"], 0), GT(c.post["state.pwr_out_electrical"], almost_ge_bound(-c.pre["pwr_out_max"])))),
-        Claim("accepted_charge_within_published_limit(+TOL)", lambda c: IMP(LT(c.post["state.pwr_out_electrical"], 0), GT(c.post["state.pwr_out_electrical"], almost_ge_bound(-c.post["state.pwr_charge_max"])))),
+        Claim("accepted_charge_within_rating(+TOL)", lambda c: IMP(XLT(c.post["state.pwr_out_electrical"], 0), GT(c.post["state.pwr_out_electrical"], almost_ge_bound(-c.pre["pwr_out_max"])))),
+        Claim("accepted_charge_within_published_limit(+TOL)", lambda c: IMP(XLT(c.post["state.pwr_out_electrical"], 0), GT(c.post["state.pwr_out_electrical"], almost_ge_bound(-c.post["state.pwr_charge_max"])))),
         Claim("no_panic", None, when="nopanic"),
     ]
     return Case(f"res_limits_{ns}x{nc}", "C09", "ReversibleEnergyStorage", res_tmpl(P, ns, nc),
@@ -191,7 +191,7 @@ def bel_loco_case(n):
 
     claims = [
         Claim("battery_discharge_within_published_limit(+TOL)", lambda c: LT(c.post[P + "res.state.pwr_out_electrical"], almost_le_bound(c.post[P + "res.state.pwr_disch_max"]))),
-        Claim("battery_charge_within_published_limit(+TOL)", lambda c: IMP(LT(c.post[P + "res.state.pwr_out_electrical"], 0), GT(c.post[P + "res.state.pwr_out_electrical"], almost_ge_bound(-c.post[P + "res.state.pwr_charge_max"])))),
+        Claim("battery_charge_within_published_limit(+TOL)", lambda c: IMP(XLT(c.post[P + "res.state.pwr_out_electrical"], 0), GT(c.post[P + "res.state.pwr_out_electrical"], almost_ge_bound(-c.post[P + "res.state.pwr_charge_max"])))),
         Claim("drivetrain_within_rating", lambda c: LE(c.post[P + "edrv.state.pwr_mech_prop_out"], c.pre[P + "edrv.pwr_out_max"])),
         Claim("regen_within_published_regen_limit", lambda c: GE(c.post[P + "edrv.state.pwr_mech_prop_out"], -c.post["state.pwr_regen_max"])),
         Claim("published_loco_limit_within_drivetrain_rating", lambda c: LE(c.post["state.pwr_out_max"], c.pre[P + "edrv.pwr_out_max"])),
